@@ -14,7 +14,7 @@ import (
 	"testing"
 )
 
-func TestVerifOpenParseStreamsColonPanic(t *testing.T) {
+func TestVerifParseStreamsColonPanic(t *testing.T) {
 	const content = "- file: /some/informational/name\n  inode: 1\n  source_id: 1234\n  streams:\n    abc:\n"
 	path := filepath.Join(t.TempDir(), "offsets.yaml")
 	if err := os.WriteFile(path, []byte(content), 0o644); err != nil {
